@@ -188,7 +188,7 @@ def check_message(ctx, fmt, spec, raw, m, same_offset, atts=True, quoted=False):
             ctx.finding(f"{fmt}:attachments:{tag}:{spec['att_name_style']}", f"{fmt}: attachments {got!r} instead of {want!r}",
                         rep("attachments", got, want))
         # each supported attachment vs the same bytes alone
-        if fmt == "eml" and [a[:3] for a in c["att"] if a[1] not in ("image/gif", "message/rfc822")] == want:
+        if [a[:3] for a in c["att"] if a[1] not in ("image/gif", "message/rfc822")] == want:
             try:
                 via = [(type(r).__name__, r.get_full_text()) for r in m.iterate_supported_attachments()]
                 err = None
@@ -215,9 +215,10 @@ def c_pairs(l):
     return coq_list([pair(coq_str(a), coq_str(b)) for a, b in l])
 
 
-def record_tree(part):
+def record_tree(part, dhv):
     ct = part.get_content_type()
     disp = str(part.get("Content-Disposition", ""))
+    fn = part.get_filename()
     payload = part.get_payload(decode=True)
     text = ""
     if payload:
@@ -226,8 +227,14 @@ def record_tree(part):
             text = payload.decode(cs, errors="replace")
         except (LookupError, UnicodeDecodeError):
             text = payload.decode("utf-8", errors="replace")
-    kids = [record_tree(k) for k in part.get_payload()] if part.is_multipart() else []
-    return f"(Part {coq_str(ct)} {coq_str(disp)} {coq_bool(bool(payload))} {coq_str(text)} {coq_list(kids)})"
+    kids = [record_tree(k, dhv) for k in part.get_payload()] if part.is_multipart() else []
+    return (f"(Part {coq_str(ct)} {coq_str(disp)} {coq_str(fn or '')} {coq_str(dhv(fn) if fn else '')} {coq_bool(part.is_multipart())} "
+            f"{coq_bool(bool(payload))} {coq_str(text)} {coq_list(kids)})")
+
+
+def body_case_term(MB, msg):
+    bp, bh = MB.get_body_content(msg)
+    return f"({record_tree(msg, MB.decode_header_value)}, ({coq_str(bp)}, {coq_str(bh)}))"
 
 
 class Spy:
@@ -386,12 +393,15 @@ def run(ctx):
     gen_tables(ctx)
 
     # ---- proofs
-    ctx.prove("C16/Props.v", ["C16/ProofsMbox.vo", "C16/ProofsMail.vo"], expected=[
+    # the expected theorems are about the code at HEAD; C16_alt_* (stated over split_mbox_messages_rd / *_joined) are extra
+    ctx.prove("C16/Props.v", ["C16/ProofsMbox.vo", "C16/ProofsMail.vo", "C16/ProofsMsg.vo"], expected=[
         "C16_mbox_roundtrip", "C16_mbox_boundaries_only_at_separators", "C16_mbox_unescaped_From_splits_refuted",
         "C16_mbox_escaped_one_per_message", "C16_mbox_quoting_undone_refuted", "C16_body_selection_spec",
-        "C16_body_outside_attachments_refuted", "C16_unfold_inverts_folding", "C16_decode_fallback", "C16_address_list",
+        "C16_body_is_no_attachment", "C16_body_single_part", "C16_body_outside_attachments_refuted", "C16_body_several_inline_parts",
+        "C16_unfold_inverts_folding", "C16_decode_fallback", "C16_address_list",
         "C16_full_text_plain_else_html", "C16_attachment_routing", "C16_attachment_same_as_alone", "C16_attachments_independent",
-        "C16_attachment_contribution_context_free"])
+        "C16_attachment_contribution_context_free", "C16_msg_recipient_angle", "C16_msg_recipients_split", "C16_msg_quoted_comma_refuted",
+        "C16_msg_body_mapping"])
     ctx.prove("C16/Inst.v", ["Gen/C16Tables.vo", "C16/Corr.vo"], expected=[
         "C16_tables_wf", "C16_mime_fallback_ok", "C16_fallback_paths_lower_case", "C16_from_pattern_is_modelled",
         "C16_fold_pattern_is_modelled", "C16_literals"])
@@ -521,8 +531,7 @@ def run(ctx):
         # recorded MIME tree / headers of the stdlib parser (what the mbox path sees)
         msg = email.message_from_bytes(raw)
         if len(body_cases) < ctx.n(200, 1500):
-            bp, bh = MB.get_body_content(msg)
-            body_cases.append(f"({coq_bool(msg.is_multipart())}, {record_tree(msg)}, ({coq_str(bp)}, {coq_str(bh)}))")
+            body_cases.append(body_case_term(MB, msg))
             body_info.append(raw[:300])
         if len(hdr_cases) < ctx.n(200, 1500):
             for h in ("Subject", "Message-ID"):
@@ -549,7 +558,7 @@ def run(ctx):
         tm = gen_tree_message(rng)
         msg = email.message_from_bytes(tm.as_bytes())
         bp, bh = MB.get_body_content(msg)
-        body_cases.append(f"({coq_bool(msg.is_multipart())}, {record_tree(msg)}, ({coq_str(bp)}, {coq_str(bh)}))")
+        body_cases.append(body_case_term(MB, msg))
         body_info.append(tm.as_bytes()[:400])
         ctx.case(("tree", tm.as_bytes()), True, kind="mime-tree")
         if msg.is_multipart() and (bp, bh) != (py_first_text(msg, "text/plain"), py_first_text(msg, "text/html")):
@@ -590,6 +599,8 @@ def run(ctx):
         chosen = [specs[rng.randrange(len(specs))] for _ in range(n)]
         eol = rng.choice([b"\n", b"\r\n"])
         mode = rng.choice(["mboxrd", "mboxrd", "mboxo"])
+        if mode == "mboxo" and any(re.search(rb"(?m)^>+From ", r) for _, r in chosen):
+            mode = "mboxrd"       # mboxo cannot represent a body line that already starts with ">From " (ambiguous on reading)
         box = G.mbox_bytes([r for _, r in chosen], eol, mode, rng)
         ms, err = run_mbox(box)
         ctx.case(("mbox", box), n >= 2, kind=f"mbox:{n}:{len(eol)}:{mode}")
@@ -615,7 +626,8 @@ def run(ctx):
                 for f in ("plain", "html"):
                     if nl(a[f]) != nl(b[f]):
                         jp = "\x1b" in a[f]
-                        ctx.finding("eml:body:iso-2022-jp-not-decoded" if jp else f"eml-vs-mbox:{f}:{sp['charset']}/{sp['api']}",
+                        fw = bool(sp.get("forwarded")) and f == "plain" and not nl(b[f])
+                        ctx.finding("eml:body:iso-2022-jp-not-decoded" if jp else "body-from-attached-message" if fw else f"eml-vs-mbox:{f}:{sp['charset']}/{sp['api']}",
                                     f".eml and .mbox disagree on the {f} body", {"message": raw, "field": f, "eml": a[f], "mbox": b[f]})
 
     # two inline text/plain parts: the two parsers must agree (they do not: first part vs all parts)
@@ -781,9 +793,80 @@ def run(ctx):
                             {"mime_type": mt, "filenames": chosen, "files_b64": {n: base64.b64encode(docs[n]).decode() for n in set(chosen)},
                              "in_message": via, "alone": exp})
 
+    # ---- D5: .msg - recipient parsing, HTML detection, field mapping over the msg_parser/olefile record of the fixtures
+    from sharepoint2text.parsing.extractors.mail import msg_email_extractor as MS
+    atoms = ["John Doe", "Doe", "j@x.test", "<j@x.test>", "<", ">", "<>", "\"", "'", " ", "  ", ",", ";", "@", "a@b", "\t", "\u00a0", "\n",
+             "Jane <jane@x.test>", "\"Doe, John\" <j@x.test>", "<a@b> ", "x<y>z", "<<a>>", "a>b<c>", "Müller", "/O=EXCH/CN=USER", ""]
+    singles, seen_s = [], set()
+    for _ in range(ctx.n(300, 3000)):
+        x = "".join(rng.choice(atoms) for _ in range(rng.randrange(0, 5)))
+        if x not in seen_s:
+            seen_s.add(x)
+            singles.append(x)
+    sc = []
+    for x in singles:
+        r = MS._parse_single_recipient(x)
+        sc.append(pair(coq_str(x), coq_opt(r, lambda e: pair(coq_str(e.name), coq_str(e.address)))))
+        ctx.case(("msg-single", x), "<" in x or "@" in x, kind="msg:single")
+    corr("msg_single_recipient", "msg_single_case", sc, singles, "str * option (str * str)", shard=600)
+    mc, minfo = [], []
+    for _ in range(ctx.n(150, 1500)):
+        l = [rng.choice(singles) for _ in range(rng.randrange(0, 4))]
+        r = MS._parse_multi_recipients(l if rng.random() < 0.7 or len(l) != 1 else l[0])
+        mc.append(pair(coq_list([coq_str(x) for x in l]), c_pairs([(e.name, e.address) for e in r])))
+        minfo.append(l)
+        ctx.case(("msg-multi", tuple(l)), len(l) >= 1, kind="msg:multi")
+    corr("msg_multi_recipients", "msg_multi_case", mc, minfo, "list str * list (str * str)", shard=400)
+    q = MS._parse_multi_recipients(['"Doe, John" <j@x.test>'])
+    ctx.case(("msg-quoted-comma",), True, kind="msg:quoted-comma")
+    if [(e.name, e.address) for e in q] != [("Doe, John", "j@x.test")]:
+        ctx.finding("msg-recipient-quoted-comma", f".msg recipient '\"Doe, John\" <j@x.test>' is parsed as {[(e.name, e.address) for e in q]!r}",
+                    {"recipient": '"Doe, John" <j@x.test>', "got": [(e.name, e.address) for e in q]})
+    hatoms = ["<!DOCTYPE html>", "<html", "<HTML>", "<body", "<p>", "<P class=x>", "<pre>", "<b>", "x < y", "<br/>", "<br>", "<Br\n>", "< p>", "<span\t",
+              "<tdx>", "<td>", "<TD\u00a0>", "<p", "<div>", "text", " ", "\n", "<script\x1f", "<style>", "<table\u3000", "İ", "ß", "<Tr>", "<head >", "<!doctype"]
+    hc, hinfo = [], []
+    for _ in range(ctx.n(250, 2500)):
+        x = "".join(rng.choice(hatoms) for _ in range(rng.randrange(0, 4)))
+        hc.append(f"({coq_str(x)}, {coq_str(x.lstrip().lower())}, {coq_bool(MS._looks_like_html(x))})")
+        hinfo.append(x)
+        ctx.case(("msg-html", x), "<" in x, kind="msg:html-hint")
+    corr("msg_looks_like_html", "msg_html_case", hc, hinfo, "str * str * bool", shard=600)
+    fc, finfo = [], []
+    try:
+        from msg_parser import MsOxMessage
+        from olefile import OleFileIO
+        for fx in ("basic_email.msg", "msg_with_attachment.msg"):
+            fb = (res / fx).read_bytes()
+            rec = MsOxMessage(io.BytesIO(fb))
+            out = list(MS.read_msg_format_mail(io.BytesIO(fb)))[0]
+            aslist = lambda v: [] if not v else (list(v) if isinstance(v, list) else [v])
+            arec = []
+            with OleFileIO(io.BytesIO(fb)) as ole:
+                sts = [s_[0] for s_ in ole.listdir(streams=False, storages=True) if len(s_) == 1 and s_[0].startswith("__attach_version1.0_")]
+                for i, st in enumerate(sts, start=1):
+                    try:
+                        ole.openstream([st, "__substg1.0_37010102"]).read()
+                    except Exception:  # noqa
+                        continue
+                    arec.append((MS._read_ole_string(ole, st, "__substg1.0_3707001F"), MS._read_ole_string(ole, st, "__substg1.0_3704001F"),
+                                 MS._read_ole_string(ole, st, "__substg1.0_370E001F"), str(i)))
+            body = rec.body or ""
+            if all(isinstance(x, str) for x in aslist(rec.sender) + aslist(rec.to)):
+                fc.append(f"({coq_list([coq_str(x) for x in aslist(rec.sender)])}, {coq_list([coq_str(x) for x in aslist(rec.to)])}, {coq_str(body)}, "
+                          f"{coq_str(body.lstrip().lower())}, {coq_str(MS._html_to_text(body))}, "
+                          f"{coq_list(['(' + ', '.join(coq_str(z) for z in a) + ')' for a in arec])}, "
+                          f"({pair(coq_str(out.from_email.name), coq_str(out.from_email.address))}, {c_pairs([(e.name, e.address) for e in out.to_emails])}, "
+                          f"{coq_str(out.body_plain)}, {coq_str(out.body_html)}, {c_pairs([(a.filename, a.mime_type) for a in out.attachments])}))")
+                finfo.append(fx)
+                ctx.case(("msg-fixture-record", fx), True, kind="msg:fixture-record")
+    except Exception as e:  # noqa
+        ctx.obligation("msg-fixture-record", False, repr(e))
+    corr("msg_mapping", "msg_case", fc, finfo,
+         "list str * list str * str * str * str * list (str * str * str * str) * ((str * str) * list (str * str) * str * str * list (str * str))", shard=10)
+
     corr("attachment_lists", "(att_list_case T)", list_cases, list_info,
          "list (str * str) * list (str * option str) * list (str * str * bool) * option (list (C07.Model.extractor * str))", shard=200)
-    corr("body", "body_case", body_cases, body_info, "bool * part * (str * str)", shard=120)
+    corr("body", "body_case", body_cases, body_info, "part * (str * str)", shard=120)
     corr("header", "header_case", hdr_cases, hdr_info, "dh_table * dec_table * u8_table * str * str", shard=200)
     corr("address", "addr_case", addr_cases, addr_info, "dh_table * dec_table * u8_table * str * list (str * str) * list (str * str)", shard=200)
     corr("emailcontent", "email_case", mail_cases, mail_info, "str * str * str * (str * str * list (str * str) * str)", shard=400)
